@@ -1,6 +1,8 @@
 """C01 - Connected instances converge on one running Master (per-instance election rule and its guards)."""
 from pyvc.spec import *
 
+from contracts.c07 import valid_structure, distinct_entries
+
 STABLE = (SupvisorsInstanceStates.RUNNING, SupvisorsInstanceStates.STOPPED, SupvisorsInstanceStates.ISOLATED)
 
 
@@ -29,3 +31,176 @@ class GetStableRunningIdentifiers:
 
     def loop0_modifies(self, stable_identifiers):
         return [contents(stable_identifiers)]
+
+
+@contract('statemodes:SupvisorsStateModes.publish_status', props=['C01'])
+class PublishStatus:
+    """publication of the local state and modes to the peers and to the listeners: changes nothing locally"""
+    raises = ()
+    effect = 'publish_status'
+
+    def modifies(self):
+        return []
+
+    def pre_local_known(self):
+        return self.supvisors.mapper.local_identifier in self.instance_state_modes
+
+
+def local_sm(sms):
+    """the StateModes of the local instance inside a SupvisorsStateModes"""
+    return sms.instance_state_modes[sms.supvisors.mapper.local_identifier]
+
+
+@contract('statemodes:SupvisorsStateModes.update_instance_state', props=['C01', 'C07'])
+class UpdateInstanceState:
+    """statement (C01 mechanism 'Master reset when it leaves RUNNING'): 'A running Master ... is kept'; a Master that is
+    no longer seen RUNNING is forgotten so that a new election takes place.  Whole view: the local view of the other
+    instances is untouched; a STOPPED / ISOLATED peer gets a fresh StateModes (its stale Master declaration is
+    forgotten)."""
+    raises = ()
+
+    def modifies(self, identifier):
+        local = local_sm(self)
+        return [contents(local.instance_states), field(local, 'master_identifier'), field(self, 'update_mark'),
+                contents(self.instance_state_modes)]
+
+    def pre_valid(self, identifier):
+        return (self.supvisors.state_modes is self and valid_structure(self.supvisors)
+                and distinct_entries(self.supvisors) and identifier in self.instance_state_modes)
+
+    def post_local_view(self, identifier, new_state, old):
+        local = local_sm(self)
+        old_local = local_sm(old.self)
+        return forall(str, lambda i: (i in local.instance_states) == (i in old_local.instance_states)
+                      and implies(i in local.instance_states,
+                                  local.instance_states[i] == ite(i == identifier, new_state,
+                                                                  old_local.instance_states[i])))
+
+    def post_master_reset(self, identifier, new_state, old):
+        local = local_sm(self)
+        old_master = local_sm(old.self).master_identifier
+        return local.master_identifier == ite(
+            new_state != SupvisorsInstanceStates.RUNNING and identifier == old_master, '', old_master)
+
+    def post_still_valid(self):
+        return valid_structure(self.supvisors) and distinct_entries(self.supvisors)
+
+    def post_stale_declaration_forgotten(self, identifier, new_state, old):
+        reset = (new_state in (SupvisorsInstanceStates.STOPPED, SupvisorsInstanceStates.ISOLATED)
+                 and identifier != self.supvisors.mapper.local_identifier)
+        sm = self.instance_state_modes[identifier]
+        return (forall(str, lambda i: (i in self.instance_state_modes) == (i in old.self.instance_state_modes)
+                       and implies(i in self.instance_state_modes and not (reset and i == identifier),
+                                   self.instance_state_modes[i] is old.self.instance_state_modes[i]))
+                and implies(reset, was_fresh(sm) and sm.master_identifier == '' and sm.state == SupvisorsStates.OFF
+                            and sm.supvisors_id is old.self.instance_state_modes[identifier].supvisors_id
+                            and forall(str, lambda i: i not in sm.instance_states)))
+
+
+# ------------------------------------------------------------------------------------------ election rule
+RUNNING = SupvisorsInstanceStates.RUNNING
+
+
+def sms_pre(sms):
+    sv = sms.supvisors
+    return sv.state_modes is sms and valid_structure(sv) and distinct_entries(sv)
+
+
+def seen_running(sms, i):
+    """the local instance sees instance i RUNNING"""
+    return i in local_sm(sms).instance_states and local_sm(sms).instance_states[i] == RUNNING
+
+
+def declared(sms, m):
+    """m is the Master declared by some instance seen RUNNING ('' = that instance has no Master)"""
+    return exists(str, lambda i: i in sms.instance_state_modes and seen_running(sms, i)
+                  and sms.instance_state_modes[i].master_identifier == m)
+
+
+def recognised(sms, m):
+    """statement: 'the Masters still recognised'"""
+    return m != '' and declared(sms, m)
+
+
+def candidate(sms, x):
+    """statement: 'picks among the Masters still recognised, or among all running instances when there is none'"""
+    return ite(exists(str, lambda m: recognised(sms, m)), recognised(sms, x), seen_running(sms, x))
+
+
+def core_member(sms, x):
+    return exists(str, lambda c: core_selects(sms.supvisors.mapper, c, x))
+
+
+def core_selects(mapper, c, x):
+    """x is one of the identifiers the configured core entry c resolves to (SupvisorsMapper.filter: identifier, nick
+    identifier or stereotype)"""
+    return c in mapper._core_identifiers and ite(
+        c in mapper._instances, x == c,
+        ite(c in mapper._nick_identifiers, x == mapper._nick_identifiers[c],
+            c in mapper.stereotypes and x in mapper.stereotypes[c]))
+
+
+def preferred(sms, x):
+    """statement: 'a core_identifiers member if any, else the lowest nick identifier' - the pool the lowest nick is
+    taken from"""
+    return candidate(sms, x) and implies(exists(str, lambda y: candidate(sms, y) and core_member(sms, y)),
+                                         core_member(sms, x))
+
+
+@contract('internal_com.mapper:SupvisorsMapper.filter', props=[])
+class MapperFilter:
+    """ASSUMED (resolution of identifier lists belongs to C18): the result holds exactly the identifiers the entries of
+    the list resolve to (known identifier, else nick identifier, else members of the stereotype); unknown entries are
+    dropped; the order of first occurrence is kept (not used here)."""
+    assumed = True
+    raises = ()
+
+    def modifies(self):
+        return []
+
+    def post_members(self, identifier_list, result):
+        return forall(str, lambda x: (x in result) == exists(str, lambda c: c in identifier_list and ite(
+            c in self._instances, x == c,
+            ite(c in self._nick_identifiers, x == self._nick_identifiers[c],
+                c in self.stereotypes and x in self.stereotypes[c]))))
+
+    def post_fresh(self, result):
+        return was_fresh(result)
+
+
+@contract('statemodes:SupvisorsStateModes.get_master_identifiers', props=['C01'])
+class GetMasterIdentifiers:
+    """'the Master identifiers declared among the Supvisors instances seen as RUNNING' (the empty string is kept: an
+    instance seen RUNNING without Master)"""
+    raises = ()
+
+    def modifies(self):
+        return []
+
+    def pre_valid(self):
+        return sms_pre(self)
+
+    def post_declared(self, result):
+        return forall(str, lambda m: (m in result) == declared(self, m))
+
+
+@contract('statemodes:SupvisorsStateModes.check_master', props=['C01'])
+class CheckMaster:
+    """statement: 'every instance ends up reporting the same single Master, which ... is seen RUNNING by all of them':
+    true iff the instances seen RUNNING declare one and the same Master and none of them is without Master.
+    Call sites (ElectionState.next, _MasterSlaveState._check_consistence) come after _OnState._check_consistence, i.e.
+    with the local instance seen RUNNING: the set of declarations is not empty."""
+    raises = ()
+
+    def modifies(self):
+        return []
+
+    def pre_valid(self):
+        return sms_pre(self)
+
+    def pre_local_running(self):
+        return seen_running(self, self.supvisors.mapper.local_identifier)
+
+    def post_single_master(self, result):
+        return result == (not declared(self, '') and forall(str, str, lambda a, b: implies(
+            declared(self, a) and declared(self, b), a == b)))
